@@ -71,6 +71,12 @@ def install(np_modules=None, int_modules=None, dm=False, summaries=True):
     for m in int_modules if int_modules is not None else INT_MODULES:
         _setglobal(m, "int", SymIntType)
         INSTALLED["int"].append(m)
+    if STAB + "functions.clifford" in mods:
+        import scipy.linalg
+        from .arr import wrap
+
+        stub(STAB + "functions.clifford", "block_diag", lambda *a: wrap(scipy.linalg.block_diag(*a)),
+             "scipy.linalg.block_diag, result re-typed as SymArray (scipy is not dispatched through __array_function__)")
     if summaries:
         install_g_function_summary()
 
